@@ -152,6 +152,7 @@ CYCLES = {
     "spawn-kill": "(bench (fn [] (def p (os/spawn [\"/bin/sleep\" \"30\"] :p)) (os/proc-kill p true)))",
     "spawn-dropped": "(bench (fn [] (os/spawn [\"/bin/true\"] :p) (ev/sleep 0.002) (gccollect)))",
     "spawn-dropped-alive": "(bench (fn [] (os/spawn [\"/bin/sleep\" \"60\"] :p) (gccollect) (gccollect)))",
+    "spawn-cancelled-wait": "(bench (fn [] (def p (os/spawn [\"/bin/sleep\" \"0.03\"] :p {:out :pipe})) (try (ev/with-deadline 0.005 (os/proc-wait p)) ([e] nil)) (ev/sleep 0.04)))",
     "spawn-failed": "(bench (fn [] (try (os/spawn [\"/nonexistent-program-xyz\"] :p {:out :pipe :err :pipe :in :pipe}) ([e] nil))))",
     "channel-traffic": "(def ch (ev/chan 2)) (bench (fn [] (ev/spawn (ev/give ch @[1 2 3])) (ev/take ch)))",
     "thread-channel-traffic": "(def a (ev/thread-chan 4)) (def b (ev/thread-chan 4)) (ev/thread (fn [&] (forever (def m (ev/take a)) (when (= m :stop) (break)) (ev/give b m))) nil :n) (bench (fn [] (ev/give a @{:k [1 2 3]}) (ev/take b)))",
